@@ -173,6 +173,7 @@ pub(crate) fn read_tags_array(
         eat_whitespace(input, inposp);
 
         // Check what is next
+        need_input!(input, *inposp);
         match input[*inposp] {
             b']' => {
                 *inposp += 1;
@@ -206,6 +207,7 @@ pub(crate) fn read_tags_array(
 // This does a quicker pass over the content than actual tag parsing does.
 pub(crate) fn count_tags(input: &[u8], mut inpos: usize) -> Result<usize, Error> {
     // First non-whitespace character after the opening brace
+    need_input!(input, inpos);
     match input[inpos] {
         b']' => return Ok(0), // no tags
         b'[' => (),           // expected
@@ -218,6 +220,7 @@ pub(crate) fn count_tags(input: &[u8], mut inpos: usize) -> Result<usize, Error>
     eat_whitespace(input, &mut inpos);
 
     loop {
+        need_input!(input, inpos);
         match input[inpos] {
             b']' => return Ok(count),
             b',' => {
@@ -243,6 +246,7 @@ pub(crate) fn read_tag(
     *outposp += 2;
 
     // handle empty tag
+    need_input!(input, *inposp);
     if input[*inposp] == b']' {
         *inposp += 1;
         put(output, countpos, 0_u16.to_ne_bytes().as_slice())?;
@@ -255,6 +259,9 @@ pub(crate) fn read_tag(
     let mut num_strings: usize = 1;
     loop {
         // read string
+        if output.len() < *outposp + 2 {
+            return Err(InnerError::BufferTooSmall(*outposp + 2).into());
+        }
         let (inlen, outlen) = json_unescape(&input[*inposp..], &mut output[*outposp + 2..])?;
         // write the length before it
         put(output, *outposp, (outlen as u16).to_ne_bytes().as_slice())?;
@@ -264,6 +271,7 @@ pub(crate) fn read_tag(
         *inposp += inlen + 1;
 
         eat_whitespace(input, inposp);
+        need_input!(input, *inposp);
         match input[*inposp] {
             b',' => {
                 *inposp += 1;
@@ -299,6 +307,9 @@ pub(crate) fn read_content(
     verify_char(input, b'"', inposp)?;
 
     // Place content 4 bytes beyond tags, to reserve space for content length
+    if output.len() < after_tags + 4 {
+        return Err(InnerError::BufferTooSmall(after_tags + 4).into());
+    }
     let (inlen, outlen) = json_unescape(&input[*inposp..], &mut output[after_tags + 4..])?;
     *inposp += inlen + 1; // +1 to pass the end quote
 
@@ -338,7 +349,7 @@ pub(crate) fn burn_string(input: &[u8], inposp: &mut usize) -> Result<(), Error>
             *inposp += 1;
         }
     }
-    if input[*inposp] == b'"' {
+    if *inposp < input.len() && input[*inposp] == b'"' {
         *inposp += 1;
         Ok(())
     } else {
@@ -351,6 +362,7 @@ pub(crate) fn burn_string(input: &[u8], inposp: &mut usize) -> Result<(), Error>
 pub(crate) fn burn_tag(input: &[u8], inposp: &mut usize) -> Result<(), Error> {
     eat_whitespace(input, inposp);
     // handle empty tag
+    need_input!(input, *inposp);
     if input[*inposp] == b']' {
         *inposp += 1;
         return Ok(());
@@ -358,7 +370,7 @@ pub(crate) fn burn_tag(input: &[u8], inposp: &mut usize) -> Result<(), Error> {
     verify_char(input, b'"', inposp)?;
     burn_string(input, inposp)?;
     eat_whitespace(input, inposp);
-    while input[*inposp] == b',' {
+    while *inposp < input.len() && input[*inposp] == b',' {
         *inposp += 1;
         eat_whitespace(input, inposp);
         verify_char(input, b'"', inposp)?;
@@ -393,6 +405,7 @@ pub(crate) fn burn_object(input: &[u8], inposp: &mut usize) -> Result<(), Error>
         eat_whitespace_and_commas(input, inposp);
 
         // Check for the end
+        need_input!(input, *inposp);
         if input[*inposp] == b'}' {
             *inposp += 1;
             return Ok(());
@@ -409,6 +422,7 @@ pub(crate) fn burn_array(input: &[u8], inposp: &mut usize) -> Result<(), Error> 
         eat_whitespace_and_commas(input, inposp);
 
         // Check for the end
+        need_input!(input, *inposp);
         if input[*inposp] == b']' {
             *inposp += 1;
             return Ok(());
